@@ -113,9 +113,40 @@ def _msgs(case, uri):
     return out
 
 
-def _observe(server, uri):
+def _query(f):
+    try:
+        return f()
+    except Exception as ex:
+        return ["raise", type(ex).__name__]
+
+
+def _observe(server, uri, qs=()):
+    """text and version of the managed document; with sampled positions also what the document
+    answers to queries at this point of its life (a TextDocument is a stateful object: the answers
+    must be those of its CURRENT text)"""
+    from lsprotocol import types
     d = server.workspace.get_text_document(uri)
-    return [[ord(x) for x in d.source], d.version]
+    obs = [[ord(x) for x in d.source], d.version]
+    if qs:
+        codec = d.position_codec
+        obs.append(_query(lambda: [[ord(x) for x in l] for l in d.lines]))
+        ans = []
+        for l, ch in qs:
+            def P():
+                return types.Position(line=l, character=ch)
+            def pos(r):
+                return [r.line, r.character]
+            ans.append([_query(lambda: d.offset_at_position(P())),
+                        _query(lambda: [ord(x) for x in d.word_at_position(P())]),
+                        _query(lambda: pos(codec.position_from_client_units(d.lines, P()))),
+                        _query(lambda: pos(codec.position_to_client_units(d.lines, P())))])
+        obs.append(ans)
+    return obs
+
+
+def _qs(case, step):
+    qss = case.get("qs")
+    return qss[step] if qss and step < len(qss) else ()
 
 
 _SERVERS = {}
@@ -156,10 +187,10 @@ def _run_frames(case):
     _COUNTER[0] += 1
     uri = URI % _COUNTER[0]
     obs = []
-    for m in _msgs(case, uri):
+    for step, m in enumerate(_msgs(case, uri)):
         try:
             _deliver(s, m)
-            obs.append(_observe(s, uri))
+            obs.append(_observe(s, uri, _qs(case, step)))
         except Exception as ex:                      # the read loop would log and go on
             obs.append(["raise", type(ex).__name__])
     _deliver(s, {"jsonrpc": "2.0", "method": "textDocument/didClose",
@@ -179,11 +210,11 @@ def _run_loop(case, use_async):
 
     @s.feature(types.TEXT_DOCUMENT_DID_OPEN)
     def _o(ls, params):
-        obs.append(_observe(ls, params.text_document.uri))
+        obs.append(_observe(ls, params.text_document.uri, _qs(case, len(obs))))
 
     @s.feature(types.TEXT_DOCUMENT_DID_CHANGE)
     def _c(ls, params):
-        obs.append(_observe(ls, params.text_document.uri))
+        obs.append(_observe(ls, params.text_document.uri, _qs(case, len(obs))))
 
     data = b"".join(_frame(m) for m in _init_msgs(case["e"]) + _msgs(case, uri))
     errs = []
@@ -231,10 +262,11 @@ class C04(core.Property):
                    "spec_locate_complete", "spec_locate_eof", "spec_locate_mono",
                    "spec_locate_complete_clamp", "did_change_version",
                    "C04_partial", "C04_utf16_utf32", "C04_full_none", "C04_version", "C04_refuted_utf8",
-                   "C04_refuted", "C04_reference_agrees", "C04_nonvacuous"]
+                   "C04_refuted", "C04_reference_agrees", "C04_nonvacuous", "C04_queries_stateless"]
     coq_targets = ["Props/C04.vo", "Extract/ExtractC04.vo"]
     rule = ("a case is one editing session on one document: didOpen + 1..40 didChange notifications (1..3 changes "
-            "each), encoding x sync kind; non-trivial = at least 2 changes and at least one change that is "
+            "each), encoding x sync kind, with queries (lines, offset_at_position, word_at_position, position_from/to_"
+            "client_units at sampled positions: first / last / edited line, past the end) between the notifications; non-trivial = at least 2 changes and at least one change that is "
             "multi-line (range or new text spans a terminator) or has a non-ASCII character before one of its "
             "positions on that line; exhaustive part: every text up to length L over the class alphabet x every "
             "valid range x replacement in {'', 'Z', LF} x 3 encodings, plus each range with its end-of-line ends moved "
@@ -274,11 +306,22 @@ class C04(core.Property):
             c = self._history(rng, rng.choice(ENCS), rng.choice(KINDS), self._text(rng, 6, ascii_only=True), 3, "frames")
             i = rng.randrange(len(c["ns"]) + 1)
             c["ns"].insert(i, [rng.randint(0, 99), []])
+            c["qs"].insert(i + 1, list(c["qs"][i]))
             cases.append(c)
         # 4. invalid edits: compared with the model only
         for _ in range(chk.n(1500, 8000)):
             cases.append(self._invalid(rng))
         return cases
+
+    @staticmethod
+    def _qpos(rng, e, text, hint_line=0):
+        """a few positions to query: first line, last line, the edited line, past the end"""
+        nl = nlines(text)
+        def ch():
+            return rng.choice([0, 0, 1, 2, rng.randint(0, 12), 2 ** 31 - 1])
+        out = [[0, ch()], [nl - 1, ch()], [min(hint_line, nl), ch()], [nl + rng.randint(0, 1), rng.choice([0, 0, 3])]]
+        rng.shuffle(out)
+        return out[:rng.randint(2, 4)]
 
     def _exhaustive(self, alpha, L, encs):
         out = []
@@ -301,6 +344,12 @@ class C04(core.Property):
                                 out.append({"k": "hist", "e": e, "kind": 2, "text": text, "v0": 0,
                                             "ns": [[1, [{"r": list(pi + pj), "t": [0x5A]}]]],
                                             "expect": text[:bs[i]] + [0x5A] + text[bs[j]:]})
+        # queries before and after the edit: every case on a text of at most one character (the empty
+        # document above all), one in nine of the others
+        for idx, c in enumerate(out):
+            if len(c["text"]) <= 1 or idx % 9 == 0:
+                n0, n1 = nlines(c["text"]), nlines(c["expect"])
+                c["qs"] = [[[0, 0], [n0, 0]], [[0, 1], [n1 - 1, 2], [n1, 0]]]
         return out
 
     @staticmethod
@@ -374,10 +423,12 @@ class C04(core.Property):
     def _history(self, rng, e, kind, text0, nedits, via):
         text, ns, v, left = list(text0), [], rng.randint(0, 5), nedits
         v0 = v
+        qs = [self._qpos(rng, e, text)]                 # queries right after didOpen
         while left > 0:
             k = min(left, rng.choice([1, 1, 1, 2, 3]))
             left -= k
             cs = []
+            hint = 0
             for _ in range(k):
                 if rng.random() < (0.08 if kind == 2 else 0.5):
                     new = self._text(rng, rng.randint(0, 8))
@@ -387,13 +438,16 @@ class C04(core.Property):
                 else:
                     ch, t2 = self._edit(rng, e, text)
                     cs.append(ch)
+                    hint = ch["r"][0]
                     if kind == 2:
                         text = t2
                     elif kind == 1:
                         text = ch["t"]
             v = v + 1 if rng.random() < 0.9 else rng.randint(-3, 10 ** 6)
             ns.append([v, cs])
-        return {"k": "hist", "e": e, "kind": kind, "text": list(text0), "v0": v0, "ns": ns, "via": via,
+            # queries between the notifications: always after the first one, then now and again
+            qs.append(self._qpos(rng, e, text, hint) if (len(ns) == 1 or rng.random() < 0.35) else [])
+        return {"k": "hist", "e": e, "kind": kind, "text": list(text0), "v0": v0, "ns": ns, "via": via, "qs": qs,
                 "expect": text}
 
     def _invalid(self, rng):
@@ -427,20 +481,32 @@ class C04(core.Property):
     def model_input(self, c):
         ns = " ".join(f"{v} {len(cs)} " + " ".join(enc_change(x) for x in cs) if cs else f"{v} 0"
                       for v, cs in c["ns"])
-        return f"hist {c['e']} {c['kind']} {enc_str(c['text'])} {c['v0']} {len(c['ns'])} {ns}"
+        qss = c.get("qs") or [[] for _ in range(len(c["ns"]) + 1)]
+        qs = " ".join(f"{len(q)} " + " ".join(f"{l} {ch}" for l, ch in q) if q else "0" for q in qss)
+        return f"hist {c['e']} {c['kind']} {enc_str(c['text'])} {c['v0']} {len(c['ns'])} {ns} {qs}"
 
     def model_output(self, c, t):
         it = iter(int(x) for x in t)
         def s():
             n = next(it)
             return [next(it) for _ in range(n)]
+        def queries(nq):
+            lines = [s() for _ in range(next(it))]
+            ans = []
+            for _ in range(nq):
+                off = next(it); w = s()
+                ans.append([off, w, [next(it), next(it)], [next(it), next(it)]])
+            return [lines, ans]
         n = next(it)
         M, S = [], []
         for _ in range(n):
             src = s(); has = next(it); v = next(it)
-            M.append([src, v if has else None])
             st = s(); sv = next(it)
-            S.append([st, sv])
+            m, sp = [src, v if has else None], [st, sv]
+            nq = next(it)
+            if nq:
+                m += queries(nq); sp += queries(nq)
+            M.append(m); S.append(sp)
         valid, gtext = next(it), next(it)
         if c.get("monly") or not valid:
             return {"M": M, "S": None, "guard": False, "klass": None}
@@ -460,6 +526,8 @@ class C04(core.Property):
         ns = c["ns"]
         for k in range(1, len(ns)):                 # shortest failing prefix
             d = dict(c); d["ns"] = ns[:k]; d.pop("expect", None)
+            if "qs" in c:
+                d["qs"] = c["qs"][:k + 1]
             yield d
         if c.get("via", "frames") != "frames":
             d = dict(c); d["via"] = "frames"
@@ -501,3 +569,41 @@ class C04(core.Property):
 
 
 PROPERTY = C04
+
+
+# ---------------------------------------------------------------------------------------------
+# Second tie for the pure core (appended; harness/gen_ast.py, coq/Base/PyMini.v, Proofs/AstDocEquiv.v):
+# the SOURCE TEXT of TextDocument.source / lines / _apply_incremental_change / _apply_full_change /
+# _apply_none_change / apply_change is translated on every run by a fail-closed AST translator into a deep
+# embedding, linked with the translated position codec, and the kernel re-checks that it computes exactly
+# Model/Doc.v (lsp_lines, rebuild / apply_incremental_change, apply_change) for every text, sync kind,
+# encoding and change.  Imported late ("Module::theorem") so that a broken translator tie does not hide the
+# other obligations.
+import sys as _sys
+_sys.path.insert(0, os.path.dirname(os.path.abspath(__file__)))
+import gen_c04 as _gen_c04
+
+# ast_doc_equiv = ast_lines_equiv /\ ast_apply_incremental_change_equiv /\ ast_apply_change_equiv
+C04.obligations = list(C04.obligations) + ["Proofs.AstDocEquiv::" + n for n in ("ast_doc_equiv", "ast_doc_example")]
+C04.coq_targets = list(C04.coq_targets) + ["Proofs/AstDocEquiv.vo"]
+C04.trusted_base = list(C04.trusted_base) + [
+    "translator tie: harness/gen_ast.py (Python ast -> PyMini, fail-closed) and the PyMini semantics "
+    "coq/Base/PyMini.v (hand-written meaning of the Python subset: RE_LINE.findall = lsp_lines, io.StringIO as a "
+    "string accumulator, for/enumerate, isinstance on the two content-change classes, procedures returning self)"]
+_prev_regenerate = getattr(C04, "regenerate", None)
+
+
+def _regenerate(self, chk):
+    try:
+        if _prev_regenerate is not None:
+            _prev_regenerate(self, chk)
+    finally:
+        core.coq_make(["Props/C04.vo", "Extract/ExtractC04.vo"])     # the differential side first
+        with core._Lock("coq"):                                      # coq/Gen is shared
+            try:
+                _gen_c04.main()
+            finally:
+                core._coq_make(["Proofs/AstDocEquiv.vo"])
+
+
+C04.regenerate = _regenerate
